@@ -148,6 +148,54 @@ func genC12(c *Ctx) {
 			c.Case("pk-of-aggregated-key-history", "pk.of 0x"+sum.Text(16), ans)
 		}
 	}
+	// key generation by several goroutines at once (different seeds and algorithms): every key is the one the model
+	// derives from its seed (a derivation that goes through shared scratch state gives wrong keys only when calls overlap)
+	{
+		const G = 8
+		per := 6
+		if c.thorough() {
+			per = 60
+		}
+		type job struct {
+			name string
+			a    crypto.SigningAlgorithm
+			seed []byte
+		}
+		jobs := make([][]job, G)
+		for g := 0; g < G; g++ {
+			for i := 0; i < per; i++ {
+				al := algos[(g+i)%len(algos)]
+				jobs[g] = append(jobs[g], job{al.name, al.a, c.bytes(32 + (g*7+i*13)%200)})
+			}
+		}
+		answers := make([][]string, G)
+		start := make(chan struct{})
+		var wg sync.WaitGroup
+		for g := 0; g < G; g++ {
+			answers[g] = make([]string, per)
+			wg.Add(1)
+			go func(g int) {
+				defer wg.Done()
+				<-start
+				for i, j := range jobs[g] {
+					answers[g][i] = guard(func() string {
+						sk, err := crypto.GeneratePrivateKey(j.a, j.seed)
+						if err != nil {
+							return "err"
+						}
+						return "ok " + hx(sk.Encode()) + " " + hx(sk.PublicKey().Encode())
+					})
+				}
+			}(g)
+		}
+		close(start)
+		wg.Wait()
+		for g := 0; g < G; g++ {
+			for i, j := range jobs[g] {
+				c.Case("keygen-concurrent/"+j.name, fmt.Sprintf("keygen %s %s", j.name, hx(j.seed)), answers[g][i])
+			}
+		}
+	}
 	// the first PublicKey() calls on a fresh private key made by several goroutines at once: whoever wins, every
 	// caller must get sk*g2 (a cache slot published before it is filled would hand out a half-built key)
 	nConc := 12
